@@ -342,7 +342,7 @@ impl Ctx {
         self.ghost_read(p, h.b.len());
         if &h.b[..] != &h.expect[..] {
             if h.b.iter().any(|&x| x == 0xDD) {
-                panic!("C05,C02,C03,C01: {}: handle reads {:02x?} (0xdd = freed memory), want {:02x?}", what, &h.b[..], h.expect);
+                panic!("C05,C02,C03,C06,C01: {}: handle reads {:02x?} (0xdd = freed memory: the read did not happen before the deallocation), want {:02x?}", what, &h.b[..], h.expect);
             }
             panic!("C05,C01: {}: handle reads {:02x?}, want {:02x?}", what, &h.b[..], h.expect);
         }
@@ -428,7 +428,7 @@ fn run_thread(tid: usize, ops: &[TOp], mut own: Vec<Hd>, mut muts: Vec<(BytesMut
                     match r {
                         Ok(mut m) => {
                             if &m[..] != &expect[..] {
-                                panic!("C05,C01{}: BytesMut from Bytes holds {:02x?}, want {:02x?}", if m.iter().any(|&x| x == 0xDD) { ",C02,C03" } else { "" }, &m[..], expect);
+                                panic!("C05,C01{}: BytesMut from Bytes holds {:02x?}, want {:02x?}", if m.iter().any(|&x| x == 0xDD) { ",C02,C03,C06" } else { "" }, &m[..], expect);
                             }
                             if !m.is_empty() && m.as_ptr() as usize == old_ptr && ctx.in_buffer(old_ptr) {
                                 // zero-copy: this thread now owns the storage exclusively
@@ -456,7 +456,7 @@ fn run_thread(tid: usize, ops: &[TOp], mut own: Vec<Hd>, mut muts: Vec<(BytesMut
                     let expect = h.expect;
                     let mut v: Vec<u8> = h.b.into();
                     if &v[..] != &expect[..] {
-                        panic!("C05,C01{}: Vec from Bytes holds {:02x?}, want {:02x?}", if v.iter().any(|&x| x == 0xDD) { ",C02,C03" } else { "" }, &v[..], expect);
+                        panic!("C05,C01{}: Vec from Bytes holds {:02x?}, want {:02x?}", if v.iter().any(|&x| x == 0xDD) { ",C02,C03,C06" } else { "" }, &v[..], expect);
                     }
                     if !v.is_empty() && ctx.tracked && v.as_ptr() as usize == ctx.base {
                         take_excl(tid * 4 + 3);
@@ -521,7 +521,7 @@ fn run_thread(tid: usize, ops: &[TOp], mut own: Vec<Hd>, mut muts: Vec<(BytesMut
                     m.reserve(total + 4);
                     let p = m.as_ptr() as usize;
                     if &m[..] != &expect[..] {
-                        panic!("C05,C01,C04{}: BytesMut after a growing reserve holds {:02x?}, want {:02x?}", if m.iter().any(|&x| x == 0xDD) { ",C02,C03" } else { "" }, &m[..], expect);
+                        panic!("C05,C01,C04{}: BytesMut after a growing reserve holds {:02x?}, want {:02x?}", if m.iter().any(|&x| x == 0xDD) { ",C02,C03,C06" } else { "" }, &m[..], expect);
                     }
                     if p == before && ctx.in_buffer(p) {
                         take_excl(tid * 4);
@@ -538,7 +538,7 @@ fn run_thread(tid: usize, ops: &[TOp], mut own: Vec<Hd>, mut muts: Vec<(BytesMut
                     ctx.ghost_read(m.as_ptr() as usize, m.len());
                     let mut v: Vec<u8> = m.into();
                     if &v[..] != &expect[..] {
-                        panic!("C05,C01{}: Vec from a BytesMut half holds {:02x?}, want {:02x?}", if v.iter().any(|&x| x == 0xDD) { ",C02,C03" } else { "" }, &v[..], expect);
+                        panic!("C05,C01{}: Vec from a BytesMut half holds {:02x?}, want {:02x?}", if v.iter().any(|&x| x == 0xDD) { ",C02,C03,C06" } else { "" }, &v[..], expect);
                     }
                     if v.capacity() > 0 && v.as_ptr() as usize == ctx.base && ctx.tracked {
                         // it took the buffer itself: exclusive owner of the whole allocation
